@@ -106,13 +106,13 @@ int main( int argc, char** argv )
     family<ck_str_list, caps_lock>( "CuckooSet-striping-list", { 1, 5, 9, 13, 17, 21 }, 8, 3, 4, 4 );
     family<ck_str_vec, caps_lock>( "CuckooSet-striping-vector2-storehash", { 1, 5, 9, 13, 17, 21 }, 24, 3, 4, 4 );
 #elif FAMILY == 2
-    family<ck_ref_list, caps_lock>( "CuckooSet-refinable-list-storehash", { 1, 5, 9, 13, 17, 21 }, 8, 3, 4, 4 );
-    family<ck_ref_vec, caps_lock>( "CuckooSet-refinable-vector2", { 1, 5, 9, 13, 17, 21 }, 24, 3, 4, 4 );
+    family<ck_ref_list, caps_lock>( "CuckooSet-refinable-list-storehash", { 1, 5, 9, 13, 17, 21 }, 8, 2, 3, 4 );
+    family<ck_ref_vec, caps_lock>( "CuckooSet-refinable-vector2", { 1, 5, 9, 13, 17, 21 }, 24, 2, 3, 4 );
 #elif FAMILY == 3
     // 16 buckets at least: keys 1, 17, 33, 49, 65, 81 share bucket 1; a bucket of more than one item triggers a resize
-    family<st_list_striping, caps_lock>( "StripedSet-stdlist-striping", { 1, 17, 33, 49, 65, 81 }, 8, 3, 4, 1 );
-    family<st_set_refinable, caps_lock>( "StripedSet-stdset-refinable", { 1, 17, 33, 49, 65, 81 }, 16, 3, 4, 1 );
-    family<st_list_refinable, caps_lock>( "StripedSet-stdlist-refinable-cmp", { 1, 17, 33, 49, 65, 81 }, 32, 3, 4, 1 );
+    family<st_list_striping, caps_lock>( "StripedSet-stdlist-striping", { 1, 17, 33, 49, 65, 81 }, 8, 2, 3, 1 );
+    family<st_set_refinable, caps_lock>( "StripedSet-stdset-refinable", { 1, 17, 33, 49, 65, 81 }, 16, 2, 3, 1 );
+    family<st_list_refinable, caps_lock>( "StripedSet-stdlist-refinable-cmp", { 1, 17, 33, 49, 65, 81 }, 32, 2, 3, 1 );
 #endif
 
     Options o; o.property = vh::property().c_str();
